@@ -19,6 +19,7 @@ EXPLANATION = (
     "consumed only through as_slice; (format-guard) every beve::read_*slice* call on a message body is guarded by "
     "body_format == Beve in the same body or at every call site of its private helper; require_body_format returns Ok only "
     "when the header's code equals the expected one."
+    " (size-writer-pairs, closed over call sites) at every call of write_message_streaming the declared body length and the closure's one emission are a documented pair over the same value."
 )
 ASSUMPTIONS = ["beve's size functions return the number of bytes its writer functions emit for the same arguments",
                "element-type rejection is performed by beve's readers"]
